@@ -1,1 +1,360 @@
-// harness
+// Harnesses for src/read/stream.rs and read_zipfile_from_stream: C10 (streaming reader agrees
+// with the builder / seekable reader), C05 (hostile local headers), C07 (stream extractor).
+#[allow(unused_imports)]
+use crate::verif_kit::*;
+#[allow(unused_imports)]
+use std::io::Read;
+#[allow(unused_imports)]
+use crate::compression::CompressionMethod;
+
+/// expected decoding of a 1-byte name
+fn s_ref_name1(b: u8, utf8: bool) -> char {
+    if b < 0x80 {
+        b as char
+    } else if utf8 {
+        '\u{FFFD}'
+    } else {
+        char::from_u32(REF_CP437[b as usize]).unwrap()
+    }
+}
+
+fn s_ref_unix_mode(made_by: u16, eattr: u32) -> Option<u32> {
+    if eattr == 0 {
+        return None;
+    }
+    match made_by >> 8 {
+        3 => Some(eattr >> 16),
+        0 => {
+            let mut m = if eattr & 0x10 != 0 { 0o040000 | 0o775 } else { 0o100000 | 0o664 };
+            if eattr & 1 != 0 {
+                m &= 0o555;
+            }
+            Some(m)
+        }
+        _ => None,
+    }
+}
+
+/// two stored entries (1-byte names, payloads P1/P2), central directory, end record
+pub(crate) struct Built<const N: usize> {
+    pub b: [u8; N],
+    pub len: usize,
+    pub v: [EntryVals; 2],
+    pub name: [[u8; 1]; 2],
+    pub l2: usize,
+    pub cd: usize,
+    pub cd2: usize,
+    pub eocd: usize,
+}
+pub(crate) fn build2<const N: usize, const P1: usize, const P2: usize>(p1: &[u8; P1], p2: &[u8; P2]) -> Built<N> {
+    let mut b = [0u8; N];
+    let mut v = [EntryVals::any(), EntryVals::any()];
+    let name: [[u8; 1]; 2] = [kani::any(), kani::any()];
+    let mut k = 0;
+    while k < 2 {
+        // what this crate's writer (and any plain producer) emits: no encryption, sizes in the local header
+        v[k].flags &= 1 << 11;
+        v[k].method = 0;
+        k += 1;
+    }
+    v[0].csize = P1 as u32;
+    v[0].usize_ = P1 as u32;
+    v[0].crc = ref_crc32(p1, P1);
+    v[0].offset = 0;
+    v[1].csize = P2 as u32;
+    v[1].usize_ = P2 as u32;
+    v[1].crc = ref_crc32(p2, P2);
+    let mut p = put_local(&mut b, 0, &v[0], v[0].crc, v[0].csize, v[0].usize_, &name[0], &[]);
+    let mut i = 0;
+    while i < P1 {
+        b[p + i] = p1[i];
+        i += 1;
+    }
+    p += P1;
+    let l2 = p;
+    v[1].offset = l2 as u32;
+    p = put_local(&mut b, p, &v[1], v[1].crc, v[1].csize, v[1].usize_, &name[1], &[]);
+    let mut i = 0;
+    while i < P2 {
+        b[p + i] = p2[i];
+        i += 1;
+    }
+    p += P2;
+    let cd = p;
+    p = put_central(&mut b, p, &v[0], &name[0], &[], &[]);
+    let cd2 = p;
+    p = put_central(&mut b, p, &v[1], &name[1], &[], &[]);
+    let eocd = p;
+    p = put_eocd(&mut b, p, 0, 0, 2, 2, (eocd - cd) as u32, cd as u32, &[]);
+    Built { b, len: p, v, name, l2, cd, cd2, eocd }
+}
+
+macro_rules! c10_stream_entries {
+    ($name:ident, $p1:expr, $p2:expr, $short:expr, $unwind:expr) => {
+        #[kani::proof]
+        #[kani::unwind($unwind)]
+        #[kani::stub(crc32fast::Hasher::internal_new_specialized, crate::verif_kit::stub_crc_specialized)]
+        fn $name() {
+            const P1: usize = $p1;
+            const P2: usize = $p2;
+            const N: usize = 192;
+            let pay1: [u8; P1] = kani::any();
+            let pay2: [u8; P2] = kani::any();
+            let bt = build2::<N, P1, P2>(&pay1, &pay2);
+            let env = if $short { Env::short(kani::any()) } else { Env::quiet() };
+            let mut src = Src::<N>::with_env(bt.b, bt.len, env);
+            // how much of each entry the consumer reads before moving on: none, part or all
+            let c1: usize = kani::any();
+            let c2: usize = kani::any();
+            kani::assume(c1 <= P1 + 1 && c2 <= P2 + 1);
+            let mut k = 0;
+            while k < 2 {
+                let (pl, want, cons): (usize, &[u8], usize) = if k == 0 { (P1, &pay1, c1) } else { (P2, &pay2, c2) };
+                match read_zipfile_from_stream(&mut src) {
+                    Ok(Some(mut f)) => {
+                        let utf8 = bt.v[k].flags & (1 << 11) != 0;
+                        {
+                            let mut it = f.name().chars();
+                            assert_eq!(it.next(), Some(s_ref_name1(bt.name[k][0], utf8)));
+                            assert!(it.next().is_none());
+                        }
+                        assert_eq!(f.name_raw()[0], bt.name[k][0]);
+                        assert_eq!(f.size(), pl as u64);
+                        assert_eq!(f.compressed_size(), pl as u64);
+                        assert!(f.compression() == CompressionMethod::Stored);
+                        assert_eq!(f.crc32(), bt.v[k].crc);
+                        assert_eq!(f.last_modified().datepart(), bt.v[k].date);
+                        assert_eq!(f.last_modified().timepart(), bt.v[k].time);
+                        let mut n = 0;
+                        while n < cons {
+                            let mut one = [0u8; 1];
+                            match f.read(&mut one) {
+                                Ok(m) => {
+                                    if n < pl {
+                                        assert_eq!(m, 1);
+                                        assert_eq!(one[0], want[n]);
+                                    } else {
+                                        assert_eq!(m, 0);
+                                    }
+                                }
+                                Err(e) => {
+                                    core::mem::forget(e);
+                                    assert!(false, "read of a well-formed streamed entry failed");
+                                }
+                            }
+                            n += 1;
+                        }
+                        // releasing the entry (Drop) must leave the stream at the next record
+                    }
+                    Ok(None) => {
+                        assert!(false, "entries ended early");
+                    }
+                    Err(e) => {
+                        core::mem::forget(e);
+                        assert!(false, "well-formed local header rejected by the streaming reader");
+                    }
+                }
+                assert_eq!(src.pos, if k == 0 { bt.l2 } else { bt.cd });
+                k += 1;
+            }
+            // the central directory signals the end of entries
+            match read_zipfile_from_stream(&mut src) {
+                Ok(None) => {}
+                Ok(Some(f)) => {
+                    core::mem::forget(f);
+                    assert!(false, "entry reported past the last one");
+                }
+                Err(e) => {
+                    core::mem::forget(e);
+                    assert!(false, "error instead of end-of-entries");
+                }
+            }
+            kani::cover!(c1 == 0 && c2 == P2 + 1);
+            kani::cover!(c1 == P1 + 1 && c2 == 1);
+        }
+    };
+}
+/// C10/C09 streaming reader, two stored entries from the independent builder (all header values
+/// symbolic: times, made-by, attributes, UTF-8 flag, 1-byte names; payloads 2 and 1 bytes with
+/// their reference CRCs): each entry reports the builder's name/size/method/time/CRC and
+/// content; for EVERY amount the consumer reads of each entry (0..=len, or to EOF) releasing the
+/// entry leaves the stream exactly at the next record; after the last entry the central
+/// directory signature yields end-of-entries (None).
+// @h prop=C10,C04 tier=quick t=1500 mem=8 name=c10_stream_entries_p2_p1
+c10_stream_entries!(c10_stream_entries_p2_p1, 2, 1, false, 8);
+/// C10/C09 as above with an arbitrary short-read schedule on the underlying stream.
+// @h prop=C10,C09 tier=thorough t=3000 mem=10 name=c10_stream_entries_short_reads
+c10_stream_entries!(c10_stream_entries_short_reads, 1, 1, true, 8);
+
+/// visitor that records what it was given
+struct RecV {
+    files: usize,
+    metas: usize,
+    meta_before_files_done: bool,
+    fname: [u8; 2],
+    mname: [u8; 2],
+    mmode: [Option<u32>; 2],
+    fbyte: [u8; 2],
+}
+impl ZipStreamVisitor for RecV {
+    fn visit_file(&mut self, file: &mut ZipFile<'_>) -> ZipResult<()> {
+        if self.metas > 0 {
+            self.meta_before_files_done = true;
+        }
+        if self.files < 2 {
+            self.fname[self.files] = file.name_raw()[0];
+            let mut one = [0u8; 1];
+            match file.read(&mut one) {
+                Ok(1) => self.fbyte[self.files] = one[0],
+                Ok(_) => {}
+                Err(e) => {
+                    core::mem::forget(e);
+                }
+            }
+        }
+        self.files += 1;
+        Ok(())
+    }
+    fn visit_additional_metadata(&mut self, metadata: &ZipStreamFileMetadata) -> ZipResult<()> {
+        if self.metas < 2 {
+            self.mname[self.metas] = metadata.name_raw()[0];
+            self.mmode[self.metas] = metadata.unix_mode();
+        }
+        self.metas += 1;
+        Ok(())
+    }
+}
+
+/// C10 visitor API: over a two-entry archive from the independent builder (symbolic header
+/// values), visit() calls visit_file once per entry in order (content readable inside the
+/// callback), then visit_additional_metadata once per entry, in order, with the central
+/// directory's values (name, Unix mode from made-by/external attributes), and returns Ok.
+// @h prop=C10 tier=quick t=1500 mem=8
+#[kani::proof]
+#[kani::unwind(8)]
+#[kani::stub(crc32fast::Hasher::internal_new_specialized, crate::verif_kit::stub_crc_specialized)]
+fn c10_visit_delivers_files_then_metadata() {
+    const N: usize = 192;
+    let pay1: [u8; 1] = kani::any();
+    let pay2: [u8; 1] = kani::any();
+    let bt = build2::<N, 1, 1>(&pay1, &pay2);
+    let src = Src::<N>::new(bt.b, bt.len);
+    let mut v = RecV { files: 0, metas: 0, meta_before_files_done: false, fname: [0; 2], mname: [0; 2], mmode: [None; 2], fbyte: [0; 2] };
+    match ZipStreamReader::new(src).visit(&mut v) {
+        Ok(()) => {}
+        Err(e) => {
+            core::mem::forget(e);
+            assert!(false, "visit failed on a well-formed archive");
+        }
+    }
+    assert_eq!(v.files, 2);
+    assert!(!v.meta_before_files_done);
+    assert_eq!(v.fname[0], bt.name[0][0]);
+    assert_eq!(v.fname[1], bt.name[1][0]);
+    assert_eq!(v.fbyte[0], pay1[0]);
+    assert_eq!(v.fbyte[1], pay2[0]);
+    assert_eq!(v.metas, 2, "central-directory metadata not delivered once per entry");
+    assert_eq!(v.mname[0], bt.name[0][0]);
+    assert_eq!(v.mname[1], bt.name[1][0]);
+    assert_eq!(v.mmode[0], s_ref_unix_mode(bt.v[0].made_by, bt.v[0].eattr));
+    assert_eq!(v.mmode[1], s_ref_unix_mode(bt.v[1].made_by, bt.v[1].eattr));
+    kani::cover!(v.mmode[0].is_some() && v.mmode[1].is_none());
+}
+
+/// C10 entries the stream cannot support produce an error, not data: a local header with the
+/// encryption bit or the data-descriptor bit set (all other header values symbolic) is refused.
+// @h prop=C10,C05 tier=quick t=900 mem=10
+#[kani::proof]
+#[kani::unwind(8)]
+#[kani::stub(crc32fast::Hasher::internal_new_specialized, crate::verif_kit::stub_crc_specialized)]
+fn c10_stream_refuses_encrypted_and_dd() {
+    const N: usize = 64;
+    let mut b = [0u8; N];
+    let v = EntryVals::any();
+    kani::assume(v.flags & (1 | (1 << 3)) != 0);
+    let name: [u8; 1] = kani::any();
+    let pay: [u8; 2] = kani::any();
+    let p = put_local(&mut b, 0, &v, v.crc, 2, 2, &name, &[]);
+    b[p] = pay[0];
+    b[p + 1] = pay[1];
+    put32(&mut b, p + 2, SIG_CENTRAL);
+    let mut src = Src::<N>::new(b, p + 6);
+    match read_zipfile_from_stream(&mut src) {
+        Ok(Some(f)) => {
+            core::mem::forget(f);
+            assert!(false, "encrypted / data-descriptor entry handed out by the streaming reader");
+        }
+        Ok(None) => assert!(false, "local header taken for the central directory"),
+        Err(e) => {
+            core::mem::forget(e);
+            kani::cover!(v.flags & 1 != 0);
+            kani::cover!(v.flags & (1 << 3) != 0 && v.flags & 1 == 0);
+        }
+    };
+}
+
+/// C05(4) streaming reader over a hostile local header: every value of every fixed field
+/// (version, flags, method incl. 99 and unknown numbers, time, CRC, 32-bit sizes), name and
+/// extra lengths 0..=2 with arbitrary bytes (so ZIP64/AES/unknown extra records too short to
+/// hold their bodies), arbitrary following bytes: value or error, one read, then release -
+/// never a panic, overflow or unbounded loop.
+// @h prop=C05,C10 tier=quick feat=base,aes t=1500 mem=8
+#[kani::proof]
+#[kani::unwind(8)]
+#[kani::stub(crc32fast::Hasher::internal_new_specialized, crate::verif_kit::stub_crc_specialized)]
+fn c05_stream_hostile_header() {
+    const N: usize = 48;
+    let mut b: [u8; N] = kani::any();
+    put32(&mut b, 0, SIG_LOCAL);
+    let nl: u16 = kani::any();
+    let xl: u16 = kani::any();
+    kani::assume(nl <= 2 && xl <= 2);
+    put16(&mut b, 26, nl);
+    put16(&mut b, 28, xl);
+    let len: usize = kani::any();
+    kani::assume(len <= N);
+    let mut src = Src::<N>::new(b, len);
+    match read_zipfile_from_stream(&mut src) {
+        Ok(Some(mut f)) => {
+            let mut one = [0u8; 1];
+            let r = f.read(&mut one);
+            kani::cover!(r.is_ok());
+            core::mem::forget(r);
+            // Drop drains the rest of the entry
+        }
+        Ok(None) => assert!(false),
+        Err(e) => {
+            kani::cover!(len < 30);
+            kani::cover!(len == N);
+            core::mem::forget(e);
+        }
+    };
+}
+
+/// C05 streaming reader over a hostile local header carrying a complete 11-byte extra record
+/// (arbitrary id incl. ZIP64 0x0001 and AES 0x9901, arbitrary body) and any method number.
+// @h prop=C05,C10,C16 tier=quick feat=base,aes t=1800 mem=10
+#[kani::proof]
+#[kani::unwind(14)]
+#[kani::stub(crc32fast::Hasher::internal_new_specialized, crate::verif_kit::stub_crc_specialized)]
+fn c05_stream_hostile_extra11() {
+    const N: usize = 48;
+    let mut b: [u8; N] = kani::any();
+    put32(&mut b, 0, SIG_LOCAL);
+    put16(&mut b, 26, 1);
+    put16(&mut b, 28, 11);
+    let mut src = Src::<N>::new(b, N);
+    match read_zipfile_from_stream(&mut src) {
+        Ok(Some(mut f)) => {
+            let mut one = [0u8; 1];
+            let r = f.read(&mut one);
+            kani::cover!(r.is_ok());
+            core::mem::forget(r);
+        }
+        Ok(None) => assert!(false),
+        Err(e) => {
+            kani::cover!(le16(&b, 31) == 0x9901);
+            core::mem::forget(e);
+        }
+    };
+}
